@@ -105,6 +105,15 @@ func c17RunScript(n datamodel.Node, script []c17Op) []string {
 			case "bytes":
 				b, err := n.AsBytes()
 				out[i] = fmt.Sprintf("%s/%d/%v", fph(string(b)), len(b), err)
+			case "seek-end":
+				rs, err := n.(datamodel.LargeBytesNode).AsLargeBytes()
+				if err != nil {
+					out[i] = "err"
+					return
+				}
+				end, err := rs.Seek(0, io.SeekEnd)
+				back, err2 := rs.Seek(-op.A, io.SeekEnd)
+				out[i] = fmt.Sprintf("%d/%v/%d/%v", end, err, back, err2 != nil)
 			case "read":
 				rs, err := n.(datamodel.LargeBytesNode).AsLargeBytes()
 				if err != nil {
@@ -190,7 +199,10 @@ func TestC17_P_ConcurrentReads(t *testing.T) {
 			for j := rapid.IntRange(1, 12).Draw(t, "ops"); j > 0; j-- {
 				var op c17Op
 				if strings.HasPrefix(kind, "file") {
-					switch rapid.IntRange(0, 2).Draw(t, "fop") {
+					switch rapid.IntRange(0, 3).Draw(t, "fop") {
+					case 3:
+						// end-relative seeks need the file's length (which old-style files have to work out from their children)
+						op = c17Op{Kind: "seek-end", A: int64(rapid.IntRange(0, len(content)).Draw(t, "back"))}
 					case 0:
 						op = c17Op{Kind: "bytes"}
 					default:
